@@ -50,9 +50,8 @@ Qed.
 (* absolute units are fixed multiples of the pixel: 1in = 96px = 72pt = 6pc = 2.54cm = 25.4mm = 101.6q *)
 Theorem absolute_units e b fs v u f : to_pixels u = Some f -> px_is (length e b fs (LDim v u)) (v * f).
 Proof.
-  intros H. unfold length. destruct (Qzero v) eqn:Z.
-  - apply Qzero_true in Z. simpl. rewrite Z. lra.
-  - destruct u; simpl in H; try discriminate; inversion H; subst; simpl; lra.
+  intros H. unfold length. destruct u; simpl in H; try discriminate; inversion H; subst; simpl;
+    (destruct (Qzero v) eqn:Z; simpl; [apply Qzero_true in Z; rewrite Z|]; lra).
 Qed.
 Theorem unit_table_exact :
   to_pixels In_ = Some 96 /\
@@ -62,11 +61,8 @@ Theorem unit_table_exact :
   (exists f, to_pixels Qu = Some f /\ f * (1016 # 10) == 96).
 Proof. repeat split; eexists; split; try reflexivity; reflexivity. Qed.
 
-Theorem percent_and_keywords_unchanged e b fs v : length e b fs LKeyword = LSame /\ (~ v == 0 -> length e b fs (LDim v Pct) = LSame).
-Proof.
-  split; auto. intros H. unfold length. destruct (Qzero v) eqn:Z; auto.
-  apply Qzero_true in Z. contradiction.
-Qed.
+Theorem percent_and_keywords_unchanged e b fs v : length e b fs LKeyword = LSame /\ length e b fs (LDim v Pct) = LSame.
+Proof. split; auto. unfold length. simpl. rewrite andb_false_r. reflexivity. Qed.
 
 (* ---- font-size: em, ex, ch and % against the PARENT's font size (the initial value on the root) *)
 Definition parent_or_initial (parent : option Q) : Q := match parent with Some p => p | None => initial_font_size end.
